@@ -468,3 +468,108 @@ pub fn graph_shape(program_text: &str, goal_text: &str) -> &'static str {
     }
     shape
 }
+
+/// Programs built around the motif that stresses *provisional* results (C05: "a result that relied
+/// on a cyclic assumption that later turned out false is never reported or reused"): a cycle head H,
+/// a chain P1 -> .. -> Pk -> H whose members are computed while H is still open, consumers Q of
+/// those members that do not reach H otherwise, and a condition of H that decides H only after
+/// the members and consumers were visited (a node without impl, or a fact).  Node numbers are a
+/// random permutation and the order of every condition list is random.  Returns the program text,
+/// the number of nodes and a sequence of goals (head first, then consumers and members, then
+/// conjunctions with a negated head) meant to be posed to one solver instance in order.
+pub fn provisional_program(rng: &mut Rng, coinductive: bool) -> (String, usize, Vec<String>) {
+    let k = 1 + rng.usize_below(3); // chain length
+    let m = 1 + rng.usize_below(3); // consumers
+    let n = 1 + k + m + 2; // H, P1..Pk, Q1..Qm, F (no impl), T (fact)
+    // random numbering
+    let mut perm: Vec<usize> = (0..n).collect();
+    for i in (1..n).rev() {
+        let j = rng.usize_below(i + 1);
+        perm.swap(i, j);
+    }
+    let h = perm[0];
+    let p: Vec<usize> = (0..k).map(|i| perm[1 + i]).collect();
+    let q: Vec<usize> = (0..m).map(|i| perm[1 + k + i]).collect();
+    let f = perm[1 + k + m];
+    let t = perm[2 + k + m];
+    let shuffle = |rng: &mut Rng, v: &mut Vec<usize>| {
+        for i in (1..v.len()).rev() {
+            let j = rng.usize_below(i + 1);
+            v.swap(i, j);
+        }
+    };
+    let mut impls: Vec<(usize, Vec<usize>)> = vec![];
+    // head: first member of the chain, some consumers, and the deciding condition
+    let mut hc = vec![p[0]];
+    for &qi in &q {
+        if rng.chance(2, 3) {
+            hc.push(qi);
+        }
+    }
+    let h_fails = rng.chance(2, 3);
+    hc.push(if h_fails { f } else { t });
+    shuffle(rng, &mut hc);
+    impls.push((h, hc));
+    if !coinductive || rng.chance(1, 4) {
+        // a second way to prove the head (inductive cycles: the base case found after the cycle)
+        if rng.chance(1, 2) {
+            impls.push((h, vec![t]));
+        }
+    }
+    for i in 0..k {
+        let mut c = vec![if i + 1 < k { p[i + 1] } else { h }];
+        if rng.chance(1, 3) {
+            c.push(t);
+        }
+        if rng.chance(1, 5) {
+            c.push(p[rng.usize_below(k)]);
+        }
+        c.dedup();
+        shuffle(rng, &mut c);
+        impls.push((p[i], c));
+    }
+    for j in 0..m {
+        let mut c = vec![p[rng.usize_below(k)]];
+        if rng.chance(1, 3) {
+            c.push(t);
+        }
+        if j > 0 && rng.chance(1, 3) {
+            c.push(q[rng.usize_below(j)]);
+        }
+        shuffle(rng, &mut c);
+        impls.push((q[j], c));
+    }
+    impls.push((t, vec![]));
+    shuffle_impls(rng, &mut impls);
+    let mut s = String::new();
+    for i in 0..n {
+        s.push_str(&format!("struct N{} {{}}\n", i));
+    }
+    s.push_str(&format!("{}trait G {{}}\n", if coinductive { "#[coinductive] " } else { "" }));
+    for (head, conds) in &impls {
+        if conds.is_empty() {
+            s.push_str(&format!("impl G for N{} {{}}\n", head));
+        } else {
+            let w: Vec<String> = conds.iter().map(|c| format!("N{}: G", c)).collect();
+            s.push_str(&format!("impl G for N{} where {} {{}}\n", head, w.join(", ")));
+        }
+    }
+    let mut goals = vec![format!("N{}: G", h)];
+    let mut rest: Vec<usize> = q.iter().chain(p.iter()).cloned().collect();
+    shuffle(rng, &mut rest);
+    for x in &rest {
+        goals.push(format!("N{}: G", x));
+    }
+    let x = rest[rng.usize_below(rest.len())];
+    goals.push(format!("N{}: G, not {{ N{}: G }}", x, h));
+    goals.push(format!("not {{ N{}: G }}, N{}: G", h, x));
+    goals.push(format!("N{}: G", h));
+    (s, n, goals)
+}
+
+fn shuffle_impls(rng: &mut Rng, v: &mut Vec<(usize, Vec<usize>)>) {
+    for i in (1..v.len()).rev() {
+        let j = rng.usize_below(i + 1);
+        v.swap(i, j);
+    }
+}
